@@ -295,9 +295,9 @@ fn split_comment_token(token: Token) -> Vec<Token> {
         line += n_lines;
 
         column = if n_lines == 0 {
-            column + prev_text.len() as u32
+            column + prev_text.chars().count() as u32
         } else {
-            (prev_text.len() - prev_text.rfind('\n').unwrap_or(0)) as u32
+            prev_text[prev_text.rfind('\n').unwrap() + 1..].chars().count() as u32 + 1
         };
 
         prev_pos = pos;
@@ -317,7 +317,7 @@ fn split_comment_token(token: Token) -> Vec<Token> {
             line,
             column,
             length,
-            pos: pos as u32 + length,
+            pos: token.pos + pos as u32,
             source: token.source,
         };
         ret.push(token);
